@@ -66,7 +66,7 @@ func (f *fault) String() string {
 	if f.Hold {
 		s += "+hold"
 	}
-	if f.Kind == "cut" || f.Kind == "write-error" || f.Kind == "exception+write-error" || f.Kind == "stall" {
+	if f.Kind == "cut" || f.Kind == "write-error" || f.Kind == "exception+write-error" || f.Kind == "exception-during-write" || f.Kind == "stall" {
 		s += fmt.Sprintf("@byte%d", f.K)
 	}
 	if f.Kind == "unexpected-packet" {
@@ -164,6 +164,19 @@ func runScenarioWith(sc scn, seed int64, f *fault, readTimeout time.Duration, ba
 				}
 				time.Sleep(3 * time.Millisecond)
 			}
+		case "exception-during-write":
+			// two faults in a fixed order: the write that is waiting at this gate stays in flight until
+			// the receiver has consumed the exception (the query context is cancelled by then), and
+			// only then fails after K more bytes
+			sim.Conn.Locked(func() { sim.Srv.Aborted = true })
+			sim.Conn.DropQueuedAfterCurrent()
+			sim.Conn.Push(simnet.Item{Data: simnet.PacketException(exc)})
+			for i := 0; i < 200 && sim.Conn.QueueLen() > 0; i++ {
+				time.Sleep(time.Millisecond)
+			}
+			time.Sleep(3 * time.Millisecond)
+			w := sim.Conn.WrittenBytes()
+			sim.Conn.Locked(func() { sim.Conn.WriteFailAfter = w + f.K })
 		case "unknown-packet":
 			sim.Conn.PushFront(simnet.Item{Data: []byte{byte(40 + f.K%80), 0, 1, 2}})
 		case "unexpected-packet":
